@@ -694,6 +694,20 @@ func TestDrv_C09(t *testing.T) {
 						tr.Emit("Cut", KV{"cut": cut, "reader": "auto, data with EOF", "out": ids, "tail": tail})
 					}
 					cuts++
+					// ... and from a seekable reader that stands behind an earlier run in the same file (a log that runs are appended
+					// to, read from where this run begins): the stream is what follows the reader's position
+					if cut%10 == 0 || total <= 2048 {
+						earlier, _ := encodeAll(c, []vegeta.Result{{Attack: "an earlier run", Seq: 7, Code: 200, Timestamp: time.Unix(1500000000, 0), Method: "GET", URL: "http://earlier/"}})
+						rd := bytes.NewReader(append(append([]byte{}, earlier...), data[:cut]...))
+						_, _ = rd.Seek(int64(len(earlier)), io.SeekStart)
+						if dec := vegeta.DecoderFor(rd); dec == nil {
+							tr.Emit("Cut", KV{"cut": cut, "reader": "auto, behind an earlier run: no decoder", "out": []int{}, "tail": "eof"})
+						} else {
+							ids, tail := decodeIDs(dec, rs, n+3)
+							tr.Emit("Cut", KV{"cut": cut, "reader": "auto, behind an earlier run", "out": ids, "tail": tail})
+						}
+						cuts++
+					}
 				}
 			}
 			if len(samples) < 2 {
@@ -962,11 +976,21 @@ func TestDrv_C08(t *testing.T) {
 		for ci, chain := range all {
 			src := names[ci%3]
 			data, _ := encodeAll(codecByName(src), rs)
-			in := filepath.Join(dir, fmt.Sprintf("chain%d.0.%s", ci, src))
+			// a file's name says nothing about its format: in turn the names carry the format they hold, none, and another one
+			ext := func(format string) string {
+				switch ci % 3 {
+				case 1:
+					return "dat"
+				case 2:
+					return map[string]string{"gob": "json", "json": "csv", "csv": "gob"}[format]
+				}
+				return format
+			}
+			in := filepath.Join(dir, fmt.Sprintf("chain%d.0.%s", ci, ext(src)))
 			must(os.WriteFile(in, data, 0o644))
 			prev := in
 			for step, to := range chain {
-				out := filepath.Join(dir, fmt.Sprintf("chain%d.%d.%s", ci, step+1, to))
+				out := filepath.Join(dir, fmt.Sprintf("chain%d.%d.%s", ci, step+1, ext(to)))
 				ops = append(ops, map[string]any{"op": "encode", "files": []string{prev}, "to": to, "output": out})
 				prev = out
 			}
